@@ -80,7 +80,7 @@ fn the_primitive_fn<S: TheCompatible>(
                     if input.state().is_current_font_command(*tag) {
                         font_to_tokens(the_token, input, input.vm().current_font());
                     } else {
-                        todo!("should return an error")
+                        input.error(invalid_argument_error(token))?;
                     }
                 }
                 None
@@ -90,13 +90,18 @@ fn the_primitive_fn<S: TheCompatible>(
                     | command::Command::Execution(..)
                     | command::Command::CharacterTokenAlias(..),
                 ) => {
-                    todo!("should return an error")
+                    input.error(invalid_argument_error(token))?;
                 }
             }
         }
-        _ => todo!("should return an error"),
+        _ => input.error(invalid_argument_error(token))?,
     };
     Ok(())
+}
+
+// TeX.2021.428
+fn invalid_argument_error(token: token::Token) -> error::SimpleTokenError {
+    error::SimpleTokenError::new(token, "this token cannot be used after \\the")
 }
 
 fn font_to_tokens<S: TexlangState + TheCompatible>(
